@@ -93,4 +93,50 @@ Section Gen.
     assert (C2 : omul O (o2 O) h = omul O (o2 O) c) by (clearbody h c A; nz).
     transitivity (odiv O (omul O (o2 O) h) (o2 O)); [field; exact two_nz|]. rewrite C2. field. exact two_nz.
   Qed.
+  (* every entry of H is determined by q alone: H_rs = e_r^T H e_s = sum_i v_i(e_r) . I_i v_i(e_s) *)
+  Theorem gen_entry r s : r < n -> s < n ->
+    mget t0 H r s = cross O M q (unitv O n r) (unitv O n s).
+  Proof.
+    intros Hr Hs. rewrite <- (gen_bilinear (unitv O n r) (unitv O n s) (unitv_length O n r) (unitv_length O n s)).
+    pose proof gen_wf as [LH RH].
+    rewrite (odot_unitv O n) by (try rewrite (mvmul_length O); assumption).
+    rewrite (nth_mvmul O) by (rewrite LH; exact Hr).
+    rewrite (@odot_comm T O FL). rewrite (odot_unitv O n) by (try apply RH; assumption). reflexivity.
+  Qed.
 End Gen.
+
+Section GenTwo.
+  Context {T : Type} (O : Ops T) {FL : FieldLaws O} {TL : TrigLaws O}.
+  Local Notation t0 := (o0 O).
+  (* C13 for CRBA: with the flag cleared, the result is the same on any two workspaces that carry the kinematic data of q *)
+  Theorem crba_ws_independent (M : @Model T) q (wa wb : @WS T) : WF M ->
+    (forall i, 0 < i < nbodies M -> joint_wf O M q i) -> o2 O <> t0 -> KinOK O M q wa -> KinOK O M q wb ->
+    let n := dof_count M in
+    forall r s, r < n -> s < n ->
+      mget t0 (snd (crba O M wa q (zerosM O n n) false)) r s = mget t0 (snd (crba O M wb q (zerosM O n n) false)) r s.
+  Proof.
+    intros W J N2 Ka Kb n r s Hr Hs. unfold n in *.
+    rewrite (gen_entry O M q W J N2 wa Ka r s Hr Hs), (gen_entry O M q W J N2 wb Kb r s Hr Hs). reflexivity.
+  Qed.
+  Lemma ukc_q_kinok (M : @Model T) q (w0 : @WS T) : WF M ->
+    (forall i j, 0 < i < nbodies M -> 0 < j < nbodies M -> i <> j ->
+       is_custom (jkind (getJ M i)) = true -> is_custom (jkind (getJ M j)) = true -> jcust (getJ M i) <> jcust (getJ M j)) ->
+    Good O M w0 -> KinOK O M q (ukc_q O M w0 q).
+  Proof.
+    intros W C Hg. split; [exact (proj1 (ukc_q_spec O M w0 q W (proj1 Hg)))|].
+    intros i Hi. split; [exact (ukc_q_Xl O M q W (vzeros t0 (dof_count M)) (vzeros_length _ _) w0 (proj1 Hg) i Hi)|]. split.
+    - exact (w_S O M q W C w0 Hg i Hi).
+    - rewrite <- (w_S O M q W C w0 Hg i Hi). exact (w_Slen O M q W C w0 Hg i Hi).
+  Qed.
+  Theorem crba_after_position_update_ws_independent (M : @Model T) q (w1 w2 : @WS T) : WF M ->
+    (forall i j, 0 < i < nbodies M -> 0 < j < nbodies M -> i <> j ->
+       is_custom (jkind (getJ M i)) = true -> is_custom (jkind (getJ M j)) = true -> jcust (getJ M i) <> jcust (getJ M j)) ->
+    (forall i, 0 < i < nbodies M -> joint_wf O M q i) -> o2 O <> t0 -> Good O M w1 -> Good O M w2 ->
+    let n := dof_count M in
+    forall r s, r < n -> s < n ->
+      mget t0 (snd (crba O M (ukc_q O M w1 q) q (zerosM O n n) false)) r s =
+      mget t0 (snd (crba O M (ukc_q O M w2 q) q (zerosM O n n) false)) r s.
+  Proof.
+    intros W C J N2 G1 G2. apply crba_ws_independent; try assumption; apply ukc_q_kinok; assumption.
+  Qed.
+End GenTwo.
